@@ -197,7 +197,8 @@ def run(sc, choices=None):
     if ping:
         horizon += len(outs) * (3 * int(ping["interval"]) + 3 * int(ping["timeout"]))
     asc = {"conns": conns, "callbacks": cbs, "run": runopt, "closer": app_closer, "policy": sc.get("policy"),
-           "seed": sc.get("seed", 1), "time_cap_s": int(horizon / S) + 100, "step_cap": 1_500_000, "linger": rr + 8 * S}
+           "seed": sc.get("seed", 1), "time_cap_s": int(horizon / S) + 100, "step_cap": 1_500_000, "linger": rr + 8 * S,
+           "max_attempts": len(outs) + 12}
     out = run_app(asc, choices)
     w = out["world"]
     res.absorb(w, exclude_kinds=("send", "recv", "deliver", "recv_call") if sc.get("tls") else ())
